@@ -2,7 +2,7 @@
    structure, C15 independence). *)
 From Coq Require Import ZArith List Bool String Lia ZifyBool.
 From UDS Require Import Lib.Bytes Lib.ErrM Lib.PyOps Lib.Sweep Spec.Timing Model.Message Model.Client
-  Model.Services Model.History Proofs.C17_lemmas Proofs.C05_lemmas Proofs.Client_lemmas Proofs.Bytes_lemmas.
+  Model.Services Model.Svc_Simple Model.Svc_Memory Model.Svc_Did Model.Svc_File Model.Svc_Dtc Model.History Proofs.C17_lemmas Proofs.C05_lemmas Proofs.Client_lemmas Proofs.Bytes_lemmas.
 Import ListNotations.
 Open Scope Z_scope.
 Open Scope list_scope.
@@ -30,52 +30,57 @@ Proof.
   destruct res as [[[r sd]|]|e r]; subst; auto.
 Qed.
 
-(* no call ever changes the context-manager flags *)
-Lemma run_inner_flags cfg st c now s :
-  let '(_, st', _, _, _) := run_inner cfg st c now s in flags_of st' = flags_of st.
+Global Hint Unfold request_seed send_key tester_present ecu_reset clear_dtc routine_control access_timing_parameter
+  transfer_data request_transfer_exit link_control control_dtc_setting read_memory_by_address write_memory_by_address
+  request_upload_download dynamically_define_did do_clear_dynamically_defined_did read_data_by_identifier
+  test_data_identifier write_data_by_identifier io_control request_file_transfer authentication
+  read_dtc_information : calls.
+Ltac unfold_call_head := autounfold with calls.
+
+Lemma unlock_state cfg st level params now s :
+  let '(_, st', _, _, _) := unlock_security_access cfg st level params now s in st' = st.
 Proof.
-  destruct c; cbn [run_inner].
-  - unfold raw_request. destruct (mk_request _ _ _ _); [reflexivity|].
-    destruct (send_request cfg st r timeout now s) as [[[res t] s'] tr]. destruct res as [[r0|]|e r0]; reflexivity.
-  - unfold change_session. apply single_request_flags. intros. apply dsc_post_flags.
-  - unfold request_seed. apply single_request_flags. reflexivity.
-  - unfold send_key. apply single_request_flags. reflexivity.
-  - unfold unlock_security_access. destruct (algo cfg <=? 0); [reflexivity|].
-    unfold request_seed, send_key.
-    pose proof (single_request_timing cfg st (sa_make false level params) (sa_interpret false level) now s) as H1.
-    destruct (single_request cfg st (sa_make false level params) (sa_interpret false level) no_post now s)
-      as [[[[res st1] t1] s1] tr1]. subst st1.
-    destruct res as [[[r sd]|]|e r]; try reflexivity.
-    destruct (_ && _); [reflexivity|]. destruct (algo_run cfg (seed_of sd) level) as [key e].
-    pose proof (single_request_timing cfg st (sa_make true level key) (sa_interpret true level) t1 s1) as H2.
-    destruct (single_request cfg st (sa_make true level key) (sa_interpret true level) no_post t1 s1)
-      as [[[[res2 st2] t2] s2] tr2]. subst st2. reflexivity.
-  - unfold tester_present. apply single_request_flags. reflexivity.
-  - unfold ecu_reset. apply single_request_flags. reflexivity.
+  unfold unlock_security_access. destruct (algo cfg <=? 0); [reflexivity|].
+  unfold request_seed, send_key.
+  pose proof (single_request_timing cfg st (sa_make false level params) (sa_interpret false level) now s) as H1.
+  destruct (single_request cfg st (sa_make false level params) (sa_interpret false level) no_post now s)
+    as [[[[res st1] t1] s1] tr1]. subst st1.
+  destruct res as [[[r sd]|]|e r]; try reflexivity.
+  destruct (_ && _); [reflexivity|]. destruct (algo_run cfg (seed_of sd) level) as [key e].
+  pose proof (single_request_timing cfg st (sa_make true level key) (sa_interpret true level) t1 s1) as H2.
+  destruct (single_request cfg st (sa_make true level key) (sa_interpret true level) no_post t1 s1)
+    as [[[[res2 st2] t2] s2] tr2]. subst st2. reflexivity.
 Qed.
 
-(* only change_session can change the adopted timing *)
+(* only change_session can change the client state at all *)
 Lemma run_inner_timing cfg st c now s :
   match c with CChangeSession _ => True | _ =>
     let '(_, st', _, _, _) := run_inner cfg st c now s in st' = st end.
 Proof.
-  destruct c; cbn [run_inner]; auto.
+  destruct c; cbn [run_inner]; auto;
+    try solve [unfold_call_head; apply single_request_timing].
   - unfold raw_request. destruct (mk_request _ _ _ _); [reflexivity|].
     destruct (send_request cfg st r timeout now s) as [[[res t] s'] tr]. destruct res as [[r0|]|e r0]; reflexivity.
-  - apply single_request_timing.
-  - apply single_request_timing.
-  - unfold unlock_security_access. destruct (algo cfg <=? 0); [reflexivity|].
-    unfold request_seed, send_key.
-    pose proof (single_request_timing cfg st (sa_make false level params) (sa_interpret false level) now s) as H1.
-    destruct (single_request cfg st (sa_make false level params) (sa_interpret false level) no_post now s)
-      as [[[[res st1] t1] s1] tr1]. subst st1.
-    destruct res as [[[r sd]|]|e r]; try reflexivity.
-    destruct (_ && _); [reflexivity|]. destruct (algo_run cfg (seed_of sd) level) as [key e].
-    pose proof (single_request_timing cfg st (sa_make true level key) (sa_interpret true level) t1 s1) as H2.
-    destruct (single_request cfg st (sa_make true level key) (sa_interpret true level) no_post t1 s1)
-      as [[[[res2 st2] t2] s2] tr2]. subst st2. reflexivity.
-  - apply single_request_timing.
-  - apply single_request_timing.
+  - apply unlock_state.
+  - unfold communication_control. destruct (ct_normalize a); [reflexivity|]. apply single_request_timing.
+  - unfold read_data_by_identifier_first. destruct (iterM (fun d => validate_int d 0 65535) l); [reflexivity|].
+    match goal with |- context [single_request ?a ?b ?c ?d no_post ?f ?g] =>
+      pose proof (single_request_timing a b c d f g) as H; destruct (single_request a b c d no_post f g) as [[[[res st'] t] s'] tr] end.
+    exact H.
+Qed.
+
+(* no call ever changes the context-manager flags *)
+Lemma run_inner_flags cfg st c now s :
+  let '(_, st', _, _, _) := run_inner cfg st c now s in flags_of st' = flags_of st.
+Proof.
+  destruct c.
+  all: match goal with
+       | |- context [run_inner _ _ (CChangeSession ?x) _ _] =>
+         cbn [run_inner]; unfold change_session; apply single_request_flags; intros; apply dsc_post_flags
+       | |- context [run_inner ?cf ?s0 ?cl ?n ?sc] =>
+         pose proof (run_inner_timing cf s0 cl n sc) as H; cbv iota in H;
+         destruct (run_inner cf s0 cl n sc) as [[[[? stx] ?] ?] ?]; subst stx; reflexivity
+       end.
 Qed.
 
 (* ---- C09: once the block has exited, suppression is off until a new block is entered ------------- *)
